@@ -14,7 +14,12 @@ func (p *printer) funcDecl_pkg(d *ast.FuncDecl) {
 
 	if d.Recv != nil {
 		var thisTypeIdent *ast.Ident
-		if s := d.Recv.List[0].Names[0].Name; s == token.K_this || s == token.K_我的 {
+		// the receiver may be unnamed (`函数 (T) M():`) or, in a partial tree, empty
+		recvName := ""
+		if len(d.Recv.List) > 0 && len(d.Recv.List[0].Names) > 0 {
+			recvName = d.Recv.List[0].Names[0].Name
+		}
+		if s := recvName; s == token.K_this || s == token.K_我的 {
 			if typ, ok := d.Recv.List[0].Type.(*ast.StarExpr); ok {
 				if ident, ok := typ.X.(*ast.Ident); ok {
 					thisTypeIdent = ident
